@@ -87,3 +87,17 @@ def real(x):
 def trunc(x):
     import math
     return math.trunc(x)
+
+
+def forall_keys(f):
+    """forall over 32-bit keys (symbolic: bit-vector quantifier).  Native: boundary sample only --
+    lemmas are never decided natively."""
+    n = f.__code__.co_argcount
+    import itertools
+    return all(f(*xs) for xs in itertools.product((0, 1, 0xffffffff, 0x80000000, 0x0000ffff), repeat=n))
+
+
+def exists_keys(f):
+    n = f.__code__.co_argcount
+    import itertools
+    return any(f(*xs) for xs in itertools.product((0, 1, 0xffffffff, 0x80000000, 0x0000ffff), repeat=n))
